@@ -82,7 +82,10 @@ class AugmentedNodeMixin:
                 )
 
         # add a new F-node into the graph
-        f_node_name = ("F", len(self.f_nodes))
+        f_node_idx = len(self.f_nodes)
+        while ("F", f_node_idx) in self.nodes:
+            f_node_idx += 1
+        f_node_name = ("F", f_node_idx)
         self.add_node(f_node_name)
 
         # add edge between the F-node and its intervention set
@@ -175,7 +178,10 @@ class AugmentedNodeMixin:
         self.domains.update(domain_ids)
 
         # add a new S-node into the graph
-        s_node_name = ("S", len(self.s_nodes))
+        s_node_idx = len(self.s_nodes)
+        while ("S", s_node_idx) in self.nodes:
+            s_node_idx += 1
+        s_node_name = ("S", s_node_idx)
         self.add_node(s_node_name, domain_ids=domain_ids)
 
         # add edge between the F-node and its intervention set
